@@ -4,6 +4,7 @@ import (
 	"errors"
 	"fmt"
 	"net"
+	"os"
 	"strings"
 	"sync"
 	"time"
@@ -42,7 +43,23 @@ type Rig struct {
 }
 
 // FreePort asks the kernel for a free TCP port.
+// FreePort picks a listening port for the service under test BELOW the kernel's ephemeral range (so that no outgoing
+// connection of any process on the machine can take it between this probe and the service's own listen), starting at a
+// position derived from the process id (concurrent scenario processes start at different positions).
 func FreePort() string {
+	start := 20000 + (os.Getpid()*7)%12000
+	for i := 0; i < 200; i++ {
+		p := 20000 + (start-20000+i*13)%12000
+		l, err := net.Listen("tcp4", fmt.Sprintf("127.0.0.1:%d", p))
+		if err != nil {
+			continue
+		}
+		_ = l.Close()
+		if l2, err := net.Listen("tcp4", fmt.Sprintf(":%d", p)); err == nil {
+			_ = l2.Close()
+			return fmt.Sprint(p)
+		}
+	}
 	l, err := net.Listen("tcp4", "127.0.0.1:0")
 	if err != nil {
 		return "18999"
